@@ -118,3 +118,60 @@ func VerifHarness_C15_FhirToInteger() {
 	}
 	verifrt.Reach("end")
 }
+
+// verifClockText draws a time of day from a menu plus a fraction of 0..6 symbolic digits (the clock fields are
+// exercised by the TimeOfDay harnesses; here the fraction is the subject).
+func verifClockText(label string) string {
+	b := []byte([]string{"00:00:00", "23:59:59", "10:30:07"}[verifrt.Choose(label+".clock", 3)])
+	nf := verifrt.Choose(label+".fractionDigits", 7)
+	if nf > 0 {
+		b = append(b, '.')
+		for i := 0; i < nf; i++ {
+			if i == 0 || i == nf-1 || verifrt.Thorough() {
+				b = append(b, byte('0'+verifrt.NondetIntRange(label+".f", 0, 9))) // first and last digit symbolic (all in the thorough tier)
+			} else {
+				b = append(b, '0')
+			}
+		}
+	}
+	return string(b)
+}
+
+// C15-L3c: the FHIR primitive helpers are mutual inverses on what the parsers accept: for a dateTime / instant / time
+// text with 0..6 fraction digits and each offset form, parse, format and parse again returns the same element (value,
+// precision and offset) - so the element the parser produced hides nothing its text does not show.
+func VerifHarness_C15_FhirTemporalParseFormatParse() {
+	verifrt.SplitCalendar()
+	clock := verifClockText("t")
+	zone := []string{"Z", "+05:30", "-08:00"}[verifrt.Choose("zone", 3)]
+	switch verifrt.Choose("type", 3) {
+	case 0:
+		e, err := fhir.ParseDateTime("2024-02-29T" + clock + zone)
+		if err != nil {
+			verifrt.Reach("rejected")
+			return
+		}
+		back, err2 := fhir.ParseDateTime(DateTimeToString(e))
+		verifrt.Assert(err2 == nil, "formatted-dateTime-parses")
+		verifrt.Assert(err2 != nil || (back.ValueUs == e.ValueUs && back.Precision == e.Precision && back.Timezone == e.Timezone), "dateTime-parse-after-format-is-the-identity")
+	case 1:
+		e, err := fhir.ParseInstant("2024-02-29T" + clock + zone)
+		if err != nil {
+			verifrt.Reach("rejected")
+			return
+		}
+		back, err2 := fhir.ParseInstant(InstantToString(e))
+		verifrt.Assert(err2 == nil, "formatted-instant-parses")
+		verifrt.Assert(err2 != nil || (back.ValueUs == e.ValueUs && back.Precision == e.Precision && back.Timezone == e.Timezone), "instant-parse-after-format-is-the-identity")
+	default:
+		e, err := fhir.ParseTime(clock)
+		if err != nil {
+			verifrt.Reach("rejected")
+			return
+		}
+		back, err2 := fhir.ParseTime(TimeToString(e))
+		verifrt.Assert(err2 == nil, "formatted-time-parses")
+		verifrt.Assert(err2 != nil || (back.ValueUs == e.ValueUs && back.Precision == e.Precision), "time-parse-after-format-is-the-identity")
+	}
+	verifrt.Reach("end")
+}
